@@ -1,30 +1,25 @@
 import RegressModel.Api.Searcher
 /-!
-# Specification vocabulary for C20 (`core::str::pattern::Searcher` contract)
+# Specification vocabulary for C20 (`core::str::pattern::Searcher` / `ReverseSearcher` contract)
+
+Only definitions (and decidability instances); the lemmas are in `Proofs/Lemmas/Searcher.lean`, the
+property theorems in `Proofs/C20.lean`.
 -/
 namespace Regress.C20
 open Regress.Api
 
 /-- The `Searcher` contract on the steps returned before `Done`: "index ranges that are adjacent,
 non-overlapping, covering the whole haystack". `tilesFrom len c steps`: the steps start at `c`, each
-begins where its predecessor ended, and the last one ends at `len`. (Empty `Match(a, a)` steps are
-allowed by the contract — e.g. `""` as a `&str` pattern — but then the next step must still start at
-`a`.) -/
+begins where its predecessor ended, and the last one ends at `len`; a `Match(s, e)` has `s ≤ e`
+(empty matches are allowed by the contract — e.g. `""` as a `&str` pattern), a `Reject(s, e)` has
+`s < e`; there is no `Done` among them. -/
 def tilesFrom (len : Nat) : Nat → List SearchStep → Bool
   | c, [] => c == len
-  | c, .match s e :: l => s == c && s ≤ e && tilesFrom len e l
-  | c, .reject s e :: l => s == c && s ≤ e && tilesFrom len e l
+  | c, .match s e :: l => s == c && decide (s ≤ e) && tilesFrom len e l
+  | c, .reject s e :: l => s == c && decide (s < e) && tilesFrom len e l
   | _, .done :: _ => false
 
-/-- The same contract for `ReverseSearcher::next_back`: the steps start at the end `c` and each ends
-where its predecessor began, down to 0. -/
-def tilesBackFrom : Nat → List SearchStep → Bool
-  | c, [] => c == 0
-  | c, .match s e :: l => e == c && s ≤ e && tilesBackFrom s l
-  | c, .reject s e :: l => e == c && s ≤ e && tilesBackFrom s l
-  | _, .done :: _ => false
-
-/-- "…and laying on utf8 boundaries". -/
+/-- "…and laying on utf8 boundaries": both endpoints of every step. -/
 def onBoundaries (ctx : SearchCtx) : List SearchStep → Bool
   | [] => true
   | .match s e :: l => ctx.isBoundary s && ctx.isBoundary e && onBoundaries ctx l
@@ -37,27 +32,81 @@ def matchesOf : List SearchStep → List (Nat × Nat)
   | .match s e :: l => (s, e) :: matchesOf l
   | _ :: l => matchesOf l
 
-/-- `IsIter ctx c ms`: `ms` is what the match iterator yields from position `c` when no match is
-empty: the first match at or after `c`, then the iteration continued at its end.
-(`find_from(h, e).next()` and the continuation of an iterator standing at `e` are the same call
-`next_match(e)`, because `exec::Matches` has no state besides its position.) -/
-def IsIter (ctx : SearchCtx) : Nat → List (Nat × Nat) → Prop
-  | c, [] => ctx.findFrom c = none
-  | c, m :: ms => ctx.findFrom c = some m ∧ IsIter ctx m.2 ms
+/-- The first `Match` step of a list of steps (what `str::find` / `str::rfind` look for when driving
+`next` / `next_back`). -/
+def firstMatch : List SearchStep → Option (Nat × Nat)
+  | [] => none
+  | .match s e :: _ => some (s, e)
+  | _ :: l => firstMatch l
 
-/-- Hypotheses of `forward_tiles_partial`. -/
-structure ForwardOK (ctx : SearchCtx) : Prop where
-  /-- `find_from(h, p).next()` is a **non-empty** in-range match starting at or after `p`. -/
-  find_range : ∀ p s e, p ≤ ctx.len → ctx.findFrom p = some (s, e) → p ≤ s ∧ s < e ∧ e ≤ ctx.len
-  /-- Restarting the search at the start of the match found gives the same match
-  (a consequence of "first match at or after `p`"). -/
-  find_restart : ∀ p s e, p ≤ ctx.len → ctx.findFrom p = some (s, e) → ctx.findFrom s = some (s, e)
-  /-- Matches lie on char boundaries; so do `0` and `len`. -/
-  find_boundary : ∀ p s e, p ≤ ctx.len → ctx.findFrom p = some (s, e) →
+/-- Where the match iterator looks next after yielding `m` (`exec::Matches` / `next_match`; C09
+`advance`): at its end, except that after an empty match one char is skipped — and there is no next
+match if there is no char to skip. -/
+def advance (ctx : SearchCtx) (m : Nat × Nat) : Option Nat :=
+  if m.1 != m.2 then some m.2 else ctx.nextBoundary m.2
+
+/-- `IsIterO ctx cursor ms`: `ms` is what the match iterator yields when its cursor (`position:
+Option<usize>`) is `cursor`: nothing if the cursor is `None`; otherwise the first match at or after
+the cursor (`findFrom`), then the iteration continued at `advance`.
+(`find_from(h, c).next()` and the continuation of an iterator standing at `c` are the same call
+`next_match(c)`, because `exec::Matches` has no state besides its position.) -/
+def IsIterO (ctx : SearchCtx) : Option Nat → List (Nat × Nat) → Prop
+  | none, [] => True
+  | none, _ :: _ => False
+  | some c, [] => ctx.findFrom c = none
+  | some c, m :: ms => ctx.findFrom c = some m ∧ IsIterO ctx (advance ctx m) ms
+
+/-- `IsIter ctx c ms`: `ms` = `regex.find_from(haystack, c)` drained. -/
+def IsIter (ctx : SearchCtx) (c : Nat) (ms : List (Nat × Nat)) : Prop := IsIterO ctx (some c) ms
+
+instance IsIterO.dec (ctx : SearchCtx) : (cur : Option Nat) → (ms : List (Nat × Nat)) →
+    Decidable (IsIterO ctx cur ms)
+  | none, [] => isTrue trivial
+  | none, _ :: _ => isFalse (fun h => h)
+  | some c, [] => by unfold IsIterO; infer_instance
+  | some c, m :: ms =>
+    have := IsIterO.dec ctx (advance ctx m) ms
+    by unfold IsIterO; infer_instance
+
+instance (ctx : SearchCtx) (c : Nat) (ms : List (Nat × Nat)) : Decidable (IsIter ctx c ms) :=
+  IsIterO.dec ctx (some c) ms
+
+/-- Hypotheses on the context (what C06/C09 give for the real engine and `str` gives for the
+haystack). Everything is only required at char boundaries `p ≤ len`: the searcher never asks
+anything else.
+Not required: `nextBoundary e = none ↔ len ≤ e` (true for a `str`). The searcher and the iterator
+specification `IsIterO` use the same `nextBoundary`; if it gave up early both would stop looking for
+matches and the searcher would reject the rest, so C20 holds without it. -/
+structure CtxOK (ctx : SearchCtx) : Prop where
+  /-- `find_from(h, p).next()` is an in-range match starting at or after `p`. -/
+  find_range : ∀ p s e, p ≤ ctx.len → ctx.isBoundary p = true → ctx.findFrom p = some (s, e) →
+    p ≤ s ∧ s ≤ e ∧ e ≤ ctx.len
+  /-- Matches lie on char boundaries. -/
+  find_boundary : ∀ p s e, p ≤ ctx.len → ctx.isBoundary p = true → ctx.findFrom p = some (s, e) →
     ctx.isBoundary s = true ∧ ctx.isBoundary e = true
+  /-- Restart consistency: the first match at or after `p` is also the first match at or after its
+  own start (match attempts are deterministic). -/
+  find_restart : ∀ p s e, p ≤ ctx.len → ctx.isBoundary p = true → ctx.findFrom p = some (s, e) →
+    ctx.findFrom s = some (s, e)
   boundary_zero : ctx.isBoundary 0 = true
   boundary_len : ctx.isBoundary ctx.len = true
-  /-- `allMatches` is the drained iterator from 0. -/
-  all_iter : IsIter ctx 0 ctx.allMatches
+  /-- The char after a boundary ends at a later boundary inside the haystack. -/
+  next_boundary : ∀ e q, e ≤ ctx.len → ctx.isBoundary e = true → ctx.nextBoundary e = some q →
+    e < q ∧ q ≤ ctx.len ∧ ctx.isBoundary q = true
+
+/-- A decision procedure for `CtxOK` on a concrete context (`ctxOK_of_check`): check every
+boundary `p ≤ len`. -/
+def ctxOKCheck (ctx : SearchCtx) : Bool :=
+  ctx.isBoundary 0 && ctx.isBoundary ctx.len &&
+  (List.range (ctx.len + 1)).all fun p =>
+    !ctx.isBoundary p ||
+      ((match ctx.findFrom p with
+        | none => true
+        | some (s, e) =>
+          decide (p ≤ s) && decide (s ≤ e) && decide (e ≤ ctx.len) && ctx.isBoundary s &&
+            ctx.isBoundary e && ctx.findFrom s == some (s, e)) &&
+       (match ctx.nextBoundary p with
+        | none => true
+        | some q => decide (p < q) && decide (q ≤ ctx.len) && ctx.isBoundary q))
 
 end Regress.C20
